@@ -598,6 +598,7 @@ def sampling_scenario(prim, prop, method, boundary, which=None):
             k, j = h.split(q[0])
             return pred(cols(t, q[0], prim.dim), h.vals(k))
 
+        rp = lambda q: ("geo_prim", {"prim": prim.name, "kind": method, "shapes": h.vals(h.split(q[0])[0]), "n": n}) if (not boundary) else None
         if wlog:
             W = wlog[-1]
             S.ensure("witness-has-one-row-per-point", W.rank == 2 and W.shape[0].same(t.shape[0]) and W.shape[1].concrete() == 2)
@@ -631,7 +632,7 @@ def sampling_scenario(prim, prop, method, boundary, which=None):
 
             S.forall("every-row-in-the-set-of-its-own-parameter-row", t, concl)
         else:
-            S.forall("every-row-in-the-set-of-its-own-parameter-row", t, goal)
+            S.forall("every-row-in-the-set-of-its-own-parameter-row", t, goal, replay=rp if not boundary else None)
 
     tag = ("_" + (which or "boundary")) if boundary else ""
     f.__name__ = f"{prim.name}{tag}_{method}"
@@ -654,7 +655,7 @@ def contains_scenario(prim, boundary):
         xv = lambda q: (cols(X.val, q[0], prim.dim), h.vals(q[0]))
         at = lambda q: res.at([q[0], ()])
         if not boundary and prim.name != "point":
-            S.forall("membership-is-the-denoted-set", res, lambda q: at(q) == prim.inset(*xv(q)))
+            S.forall("membership-is-the-denoted-set", res, lambda q: at(q) == prim.inset(*xv(q)), replay=lambda q: ("geo_prim", {"prim": prim.name, "kind": "contains", "shapes": xv(q)[1], "x": xv(q)[0]}))
         elif prim.name == "point":
             S.forall("accepts-the-point", res, lambda q: z3.Implies(prim.inset(*xv(q)), at(q)))
             S.forall("rejects-beyond-tolerance", res, lambda q: z3.Implies(at(q), prim.band(*xv(q))))
@@ -677,7 +678,7 @@ def volume_scenario(prim):
         h = Harness(S, prim)
         v = S.method(h.dom, "volume", h.params).val
         S.ensure("one-value-per-row", z3.And(v.rank == 2, v.shape[-1].is_one, z3.Or(v.shape[0].size_term() == zint(h.Kp), z3.BoolVal(h.kind == "const" and v.shape[0].is_one))))
-        S.forall("measure-is-analytic-and-positive", v, lambda q: z3.And(v.at(q) == prim.meas(h.vals(q[0])), v.at(q) > 0))
+        S.forall("measure-is-analytic-and-positive", v, lambda q: z3.And(v.at(q) == prim.meas(h.vals(q[0])), v.at(q) > 0), replay=lambda q: ("geo_prim", {"prim": prim.name, "kind": "volume", "shapes": h.vals(q[0])}))
         if prim.has_boundary:
             b = S.method(S.getattr(h.dom, "boundary"), "volume", h.params).val
             S.ensure("boundary-one-value-per-row", z3.And(b.rank == 2, b.shape[-1].is_one))
@@ -705,7 +706,7 @@ def bbox_scenario(prim):
         v = h.vals(k)
         inst = S.schema_instances([k]) if h.K is not None else []
         hv, hc, hx = prim.hull(v)
-        S.ensure("encloses-every-point-of-every-row", z3.Implies(z3.And(hc) if hc else z3.BoolVal(True), z3.And([z3.And(b[2 * i] <= hx[i], hx[i] <= b[2 * i + 1]) for i in range(prim.dim)])), hy + inst)
+        S.ensure("encloses-every-point-of-every-row", z3.Implies(z3.And(hc) if hc else z3.BoolVal(True), z3.And([z3.And(b[2 * i] <= hx[i], hx[i] <= b[2 * i + 1]) for i in range(prim.dim)])), hy + inst, replay=("geo_prim", {"prim": prim.name, "kind": "bbox", "shapes": v}))
         if h.K is None and prim.name != "point":
             if hasattr(prim, "box_tight"):
                 S.ensure("tight-for-single-row", z3.And([prim.box_tight(b[2 * i], b[2 * i + 1], i, v) for i in range(prim.dim)]))
@@ -761,7 +762,7 @@ def density_scenario(prim, boundary):
             # rejection based: 2*ceil(d*vol) proposals, those with u+v >= 1 are dropped -> at most that many
             S.ensure("at-most-2-ceil-density-times-measure", z3.And(rows >= 0, z3.ToReal(rows) < 2 * want_hi))
         else:
-            S.ensure("exactly-ceil-density-times-measure", z3.And(want_lo <= z3.ToReal(rows), z3.ToReal(rows) < want_hi))
+            S.ensure("exactly-ceil-density-times-measure", z3.And(want_lo <= z3.ToReal(rows), z3.ToReal(rows) < want_hi), replay=("geo_prim", {"prim": prim.name, "kind": "density", "shapes": h.vals(()), "density": dens}) if not boundary else None)
         pred = prim.onbd if boundary else prim.inset
         S.forall("rows-in-the-set", t, lambda q: pred(cols(t, q[0], prim.dim), h.vals(())))
 
